@@ -38,5 +38,24 @@ let handle = function
         (if s.Disp.opened then 1 else 0) (dec_of_n s.Disp.clock) (int_of_nat s.Disp.next)
         (Stdlib.String.concat "," (Stdlib.List.map (fun (r, w) -> Printf.sprintf "%d:%s" (int_of_nat r) (dec_of_n w)) s.Disp.inflight))
         (Stdlib.String.concat "," (Stdlib.List.map (fun r -> string_of_int (int_of_nat r)) s.Disp.waiters))
+  | "crun" :: cap :: t30 :: evs ->
+      (* long-lived connection (Model/DispConn.v): tokens as above plus R (Reconnect) and LL (LateLost);
+         a step that starts a new epoch is shown with the extra token o@<clock> *)
+      let cap = nat_of_int (int_of_string cap) and t30 = n_of_dec t30 in
+      let cev t = if t = "R" then DispConn.Reconnect else if t = "LL" then DispConn.LateLost else DispConn.Ev (ev_of_tok t) in
+      let (c, steps) = DispConn.crun_steps cap t30 DispConn.cinit (Stdlib.List.map cev evs) in
+      let prev = ref 0 in
+      let show ((os, ep), clk) =
+        let ep = int_of_nat ep in
+        let toks = Stdlib.List.map out_str os in
+        let toks = if ep > !prev then toks @ ["o@" ^ dec_of_n clk] else toks in
+        prev := ep; Stdlib.String.concat "," toks in
+      let st = Stdlib.String.concat "|" (Stdlib.List.map show steps) in
+      let s = c.DispConn.base in
+      Printf.sprintf "%s # open=%d clock=%s next=%d infl=%s wait=%s epoch=%d" st
+        (if s.Disp.opened then 1 else 0) (dec_of_n s.Disp.clock) (int_of_nat s.Disp.next)
+        (Stdlib.String.concat "," (Stdlib.List.map (fun (r, w) -> Printf.sprintf "%d:%s" (int_of_nat r) (dec_of_n w)) s.Disp.inflight))
+        (Stdlib.String.concat "," (Stdlib.List.map (fun r -> string_of_int (int_of_nat r)) s.Disp.waiters))
+        (int_of_nat c.DispConn.epoch)
   | _ -> "bad-request"
 let () = main_loop handle
